@@ -17,7 +17,7 @@ CHECKS = {
         'technique': 'runtime monitor: model-based oracle over enumerated/sampled arrival schedules of the real reassembly buffer, blocking decided in a synctest bubble, under the race detector',
         'level_text': 'Executes the real stream buffer on every arrival permutation of n<=6 (quick) / n<=7 (thorough) frames x read schedules x closing/non-closing x base '
                       'sequence numbers, plus sampled permutations up to n=200, and compares every Read and every toBeClosed report with a sequential model; '
-                      'a parked reader is decided (not timed out) inside a virtual-time bubble. Exhaustive over the small-n space, sampled beyond.',
+                      'a parked reader is decided (not timed out) inside a virtual-time bubble. Exhaustive over the small-n space, sampled beyond. A concurrent part lets several goroutines (as the receive loops of several connections do) push the frames of one stream, with payloads of up to 20 kB that span several reads; the reader must see the sequence-ordered concatenation.',
         'level_note': 'Assumes ' + A_RACE + '; bases other than 0 rely on the field name nextRecvSeq (skipped, and reported, when absent). Wrap-around past 2^64 is outside the statement.',
         'rule': 'schedule = (arrival permutation of n frames, closing/non-closing last frame, base sequence number, '
                 'read-after-write mask, payload sizes); all n! permutations for n<=6 (quick) / n<=7 (thorough) x masks, '
@@ -63,7 +63,7 @@ CHECKS = {
         'technique': 'runtime monitor: incremental generator-comparison oracle at the reading application over a hostile in-memory network (chosen arrival orders, segmentation, back-pressure) in a synctest bubble, forced addConn interleaving via hook, race detector',
         'level_text': 'Runs two real sessions over 1..8 TLSConn connections of the hostile network with 1..hundreds of concurrent bidirectional streams, all four methods, Write and ReadFrom paths and write sizes from 1 byte to several frames; '
                       'the harness chooses cross-connection arrival order (random merge, starved connection, newest first, LIFO) or lets goroutines race with jitter, connection adding during traffic and bounded windows; every byte read is compared with the tagged generator, '
-                      'and at quiescence (decided by synctest.Wait, not by timeouts) every stream must be complete and both sessions open. One case forces sends inside the addConn publish window through a hook.',
+                      'and at quiescence (decided by synctest.Wait, not by timeouts) every stream must be complete and both sessions open. One case forces sends inside the addConn publish window through a hook; churn cases close streams from the reading side while both sides are inside large writes over window-bounded connections (a stuck-bubble watchdog reports lock cycles from goroutine dumps). A second part runs the same tagged-byte oracle through the whole path: application -> client.RouteTCP -> session -> hostile network -> server.Serve -> proxy dial -> application.',
         'level_note': 'Assumes ' + A_RACE + ' and ' + A_HARNESS + '. Goroutine schedules are sampled (GOMAXPROCS sweep, jitter), not enumerated; arrival orders are sampled because Cloak picks connections at random.',
         'rule': 'case = (method, NumConn incl. singleplex, router policy or free-running with jitter/window/late connection adding, segmentation, GOMAXPROCS, stream plans with tagged up/down write-size sequences); '
                 'distinct = hash of configuration and first stream plan; non-trivial = at least one stream with >= 16 bytes each way verified byte by byte; arrival_orders counts distinct cross-connection record orders observed',
@@ -78,7 +78,7 @@ CHECKS = {
         'technique': 'runtime monitor: prefix/complete-then-error oracle on both ends of real session pairs, closing notice placed by a router that decodes the wire, parked readers decided by synctest quiescence plus 10 virtual minutes',
         'level_text': 'Two real sessions over 1..8 connections (and singleplex); one side writes B (0 bytes to several frames) and closes, or both close; the router recognises the closing record with the reference codec and delivers it before, between or after '
                       'the data on other connections; oracle: the non-closing side reads exactly B then the broken-stream error, closers read a prefix, no reader is parked after 10 virtual minutes, writes fail after a local or processed close, '
-                      'bytes that had arrived stay readable after a local Close.',
+                      'bytes that had arrived stay readable after a local Close. Further scenarios: crossing closes while both sides are blocked in large writes over window-bounded connections; a local Close whose closing-notice send fails while a Read is parked (the Read must return); and write-then-close through the whole path (RouteTCP / server / proxy side).',
         'level_note': 'Assumes ' + A_RACE + ' and ' + A_HARNESS + '. Placement of the closing notice is sampled per policy (Cloak picks connections at random), not enumerated.',
         'rule': 'case = (method, NumConn, closing side opener/acceptor/both, write sizes before close, router policy close-first/close-last/random/lifo/starve, segmentation, late reader, parked local reader); '
                 'distinct = hash of the case; non-trivial = a close was issued and the other end was judged at quiescence',
@@ -91,7 +91,7 @@ CHECKS = {
         'technique': 'runtime fault injection: reset/EOF/session-Close injected at every routed record (boundary and inside header/payload/tag) of real session pairs in a synctest bubble; oracle over readers, recorded operations, connection states, stream counters and timers; forced check-then-act windows via hooks',
         'level_text': 'For each small scenario (1..4 connections, 1..6 streams in open/transfer/close phases) a fault-free run fixes the number of routed records; the run is then repeated with a reset, an EOF or a Close by either side at each record '
                       '(every boundary; quick: rotating subset of the in-record offset classes, thorough: all classes and kinds). After 10 virtual minutes the oracle demands: every reader got a prefix then an error, no recorded operation is still blocked, both sessions are closed, '
-                      'OpenStream is refused, every connection was closed by some end. Live-session invariants (stream count = open streams at quiescent points, no timer close with an open stream, singleplex closes with its stream) and two hook-forced windows (Close inside OpenStream, Close inside addConn) complete it.',
+                      'OpenStream is refused, every connection was closed by some end. Live-session invariants (stream count = open streams at quiescent points, no timer close with an open stream, singleplex closes with its stream) and two hook-forced windows (Close inside OpenStream, Close inside addConn) complete it; two Accept loops run per session and a singleplex session must refuse a second OpenStream.',
         'level_note': 'Assumes ' + A_RACE + ' and ' + A_HARNESS + '; a fault is modelled as TCP does it (bytes before the cut are delivered, both ends then fail). Which connection carries which record is Cloak\'s random choice, so "each connection" is covered statistically, each record index exhaustively.',
         'rule': 'case = (scenario, fault step = index of routed record, offset class in {boundary, tls header, frame header, payload, tag}, kind in {reset, eof, close by client, close by server}) plus invariant/timer/forced-window cases; '
                 'distinct = hash(scenario, fault); non-trivial = the fault struck a live session with streams in flight',
@@ -105,7 +105,7 @@ CHECKS = {
         'technique': 'runtime trace checker: every record a real session writes is decoded from a wire tap with the reference codec and checked offline against the recorded call/return history of concurrent Write/ReadFrom/Close (uniqueness, gap-freeness, contiguity, real-time order), with injected send failures; race detector as second monitor',
         'level_text': 'A real Session writes to tapped connections while 1..8 goroutines call Write on the same stream, one feeds ReadFrom, and Close comes at a random moment (1..16 streams, sizes from 1 byte to 4 frames, all methods, GOMAXPROCS sweep); '
                       'the decoded wire log must show: no (stream, seq) pair twice (nonce uniqueness), seqs exactly 0..n-1 when no send failed, each data frame a contiguous piece of one write, per-writer bytes in order, writes ordered consistently with real time, '
-                      'one closing frame numbered after every write that completed before Close. One case in five injects a send that fails after its bytes left, or a broken connection, to check "skipped but never reused".',
+                      'one closing frame numbered after every write that completed before Close. One case in five injects a send that fails after its bytes left, or a broken connection, to check "skipped but never reused". Frames of concurrent writers must not interleave within the pieces of one write, and a record of a closed stream replayed five virtual minutes later must not resurrect it.',
         'level_note': 'Assumes ' + A_RACE + ' and ' + A_HARNESS + '. Schedules are sampled, not enumerated. Writes of a writer are matched greedily by content (sizes >= 8 bytes when several writers share a stream, so matches are unambiguous).',
         'rule': 'case = one concurrent history (method, connections, streams, writers per stream, ReadFrom on/off, Close on/off, write-size set, GOMAXPROCS, injected send failure); distinct = hash of the case; '
                 'interleavings counts distinct global orders of connection writes observed; non-trivial = at least 3 writes per writer were issued and every frame on the wire was decoded and attributed',
@@ -120,8 +120,8 @@ CHECKS = {
         'technique': 'runtime monitor: exactly-once multiset oracle over tagged datagrams on real unordered session pairs with router-chosen arrival orders; oversize refusal checked on the wire tap; short-buffer read oracle',
         'level_text': 'Unordered session pairs over 1..8 connections, 1..8 streams with concurrent senders in both directions, tagged self-describing datagrams (sizes around 8192 and the frame maximum, random others), arrival order chosen by the router or free-running with jitter; '
                       'every received message must be byte-identical to a datagram written on that stream, at most once, and at quiescence on a healthy stream exactly once. A single-stream scenario sends every size 1..64, the boundary sizes and sizes above the maximum: '
-                      'oversize writes must fail without emitting a byte (wire tap), reads with buffers of size len-1, 1 and len/2 must fail without consuming, and the datagram must then be returned whole.',
-        'level_note': 'Assumes ' + A_RACE + ' and ' + A_HARNESS + '. Only the Stream boundary is decided here; the whole-system UDP path through client.RouteUDP over real sockets is not covered in this check.',
+                      'oversize writes must fail without emitting a byte (wire tap), reads with buffers of size len-1, 1 and len/2 must fail without consuming, and the datagram must then be returned whole; streams are closed at the end (nothing but written datagrams may be delivered at close time, reads after close fail).',
+        'level_note': 'Assumes ' + A_RACE + ' and ' + A_HARNESS + '. A second part (server package) sends self-describing datagrams of 1..16000 bytes through real UDP sockets -> client.RouteUDP -> unordered session -> server.Serve -> UDP echo behind the proxy dial, outside a bubble; there loss is never a verdict, only a delivered datagram that equals no sent datagram is.',
         'rule': 'case = (method, connections, router policy/free-running, segmentation, per-stream lists of datagram sizes both ways) or a single-stream size sweep; distinct = hash of the case; non-trivial = at least one datagram each way compared byte for byte',
         'assumptions': [A_RACE, A_HARNESS],
         'quick': {'shards': 16, 'timeout': 600},
@@ -134,7 +134,7 @@ CHECKS = {
         'technique': 'runtime monitor on a virtual clock: exact all-intervals token-bucket bound (running-minimum formulation) over the tapped record stream of real sessions sharing one valve, plus a bounded-progress lower bound for backlogged senders',
         'level_text': '1..3 real session pairs x 1..4 connections x 1..8 single-writer streams share one LimitedValve; traffic runs for about 30 virtual seconds in a synctest bubble; sent records are timestamped at the instant their tokens were granted '
                       '(the network never blocks a write), accepted records when the receiving loop comes back for the next record; for every pair of events the bound bytes <= rate x t x 1.01 + one second\'s worth is checked exactly, '
-                      'and backlogged runs must reach rate x t x 0.99 minus one message.',
+                      'and backlogged runs must reach rate x t x 0.99 minus one message. Rates from 6 kB/s (below one receive buffer, with small messages) to 100 MB/s; in every sixth case the peer also floods records that the session drops (undecodable bytes, genuine frames of a closed stream), which count as upload bytes all the same.',
         'level_note': 'Assumes ' + A_RACE + ' (the rate limiter sleeps on the bubble\'s virtual clock) and ' + A_HARNESS + '. The metered unit is the record payload (what the valve counts). A second part (server package) lets several first connections of one database user race through the real dispatcher and checks the same bound over all of that user\'s sessions together.',
         'rule': 'case = (rate, sessions, connections, streams, write-size set, direction tx/rx/both, idle gap, method); distinct = hash of the case; non-trivial = the traffic volume exceeds the initial burst so that the limiter actually throttles (except the 1e8 B/s rate, which checks the burst bound only)',
         'assumptions': [A_RACE, A_HARNESS],
@@ -159,7 +159,7 @@ CHECKS = {
         'technique': 'runtime differential monitor: the real client handshake against the real server authentication over a segmenting in-memory network on a virtual clock; field-by-field and key comparison; whole-system sessions inspected in the server panel',
         'level_text': 'Hundreds (quick) to tens of thousands (thorough) of real handshakes: UIDs incl. all-zero/all-0xff, proxy-method names of every length 1..12, four encryption methods (and the aes-gcm synonym), session ids incl. 0 and 2^32-1, both flags, chrome/firefox/safari, direct and CDN transports '
                       '(the client\'s real utls TLS handshake is terminated by an in-process crypto/tls server that forwards plaintext to the origin), server names incl. a 253-byte name and random/RANDOM, client clock offsets in [-178 s, +178 s], random server clock phases, byte-wise/random/whole segmentation. '
-                      'Oracle: every ClientInfo field equals the configuration, the key returned by the client equals the key the server sealed, and a message crosses the prepared connections. Whole system: MakeSession + Serve, the registered session has the client\'s key and flags, a 1 KiB echo works and the proxy address of the configured method is dialled.',
+                      'Oracle: every ClientInfo field equals the configuration, the key returned by the client equals the key the server sealed, and a message crosses the prepared connections. Whole system: MakeSession + Serve, the registered session has the client\'s key and flags, a 1 KiB echo works and the proxy address of the configured method is dialled (every fourth case after an outage of 190..390 virtual seconds during which dials fail). Forced overlaps: a connection parked between authorisation and session attachment (hook, or inside the user manager) while another completes; 2..6 simultaneous connections of one new session of a database user against a yielding user manager - each must be told the key of the session the server keeps.',
         'level_note': 'Assumes ' + A_RACE + ', ' + A_HARNESS + ' and Go\'s crypto/tls as the CDN stand-in. Offsets within 2 s of the +-180 s edges are left to C07. ClientHello randomness (extension order, padding, GREASE) is sampled by repetition; evidence lists the distinct hello lengths and extension orders seen.',
         'rule': 'case = one handshake configuration (uid class, method-name length, encryption, session id, flags, browser, transport, server name, clock offset, segmentation); distinct = hash of the configuration; non-trivial = the handshake completed and all fields and both keys were compared',
         'assumptions': [A_RACE, A_HARNESS],
@@ -171,7 +171,7 @@ CHECKS = {
         'technique': 'runtime monitor: mutation of genuine first packets (produced by the real client) against the real authentication on fresh states, exact integer-nanosecond window oracle, and dispatch-level observation (handshake reply vs redirect, where an admin request lands) in the real Serve loop',
         'level_text': 'Genuine first packets of firefox/chrome/safari hellos and the WebSocket GET are captured from the real client; every bit of the sealed block and every third (quick) / every (thorough) other bit is flipped, plus random multi-byte changes, truncations and foreign server keys, each on a fresh state: '
                       'acceptance requires an unmodified sealed block and an identical recovered identity. The timestamp window is swept in 1 s (thorough) / 7 s (quick) steps over +-400 s and at +-180 s +- {1 ns, 1 ms, 1 s} with four sub-second server phases against the exact integer oracle. '
-                      'Through the real Serve loop, 16 identity/method/session-id classes x 2 transports check that only authorised users of served methods get a handshake reply (others reach the redirect target) and that the admin API answers only to (AdminUID, session id 0).',
+                      'Forgeries sealed with the low-order X25519 points as ephemeral key (shared secret zero) must be refused. Through the real Serve loop, 18 identity/method/session-id classes x 2 transports check that only authorised users of served methods get a handshake reply (others reach the redirect target) and that the admin API answers only to (AdminUID, session id 0).',
         'level_note': 'Assumes ' + A_RACE + ' and ' + A_HARNESS + '. The X25519-ignored top bit of the ephemeral key is counted, not judged, here (it is C08\'s concern). Changes to non-authenticating parts of a packet may legitimately be accepted.',
         'rule': 'case = (base packet, shard of bit positions and random modifications) / (transport, clock offsets x server phases) / (dispatch class, transport); counters give the number of presentations; distinct by construction; non-trivial = the genuine packet is accepted first, so every rejection is due to the modification',
         'assumptions': [A_RACE, A_HARNESS],
@@ -182,7 +182,7 @@ CHECKS = {
         'pkg': 'internal/server', 'test': 'TestVerif_C08', 'level': 'exploration',
         'technique': 'runtime monitor: model (set of accepted identity blocks) checked online against the real State with its replay-cache cleaner running on a virtual clock over multi-day histories; stress of simultaneous presentations; differential test of altered copies that still authenticate',
         'level_text': 'Histories: genuine packets (real client, clock offsets at both ends of the window) are presented to a real State inside a synctest bubble across 12 h clean-up ticks - first sightings at tick-{1,10,179,180,181,359,361} s, re-presentations at tick+{0,1,179,359} s, and random 50..200-event histories over three virtual days; '
-                      'any second acceptance of a packet is a violation, and a first timely presentation must be accepted. Schedules: 2..64 goroutines present one packet at once (thousands of rounds, yields injected at the clock read): exactly one acceptance. '
+                      'any second acceptance of a packet is a violation, and a first timely presentation must be accepted. Schedules: 2..64 goroutines present one packet at once (thousands of rounds, yields injected at the clock read): exactly one acceptance; a scan-race history parks the cleaner inside its scan (through the injected clock) while the packet is presented again. '
                       'Variants: bit flips, random multi-bit changes and HTTP spelling variants that a fresh state still authenticates must be refused by a state that has seen the original.',
         'level_note': 'Assumes ' + A_RACE + ' and ' + A_HARNESS + '. Schedules of the simultaneous presentations are sampled by stress. Only malleability reachable by editing bytes without keys is tested.',
         'rule': 'case = one history (boundary or random), one concurrency level, or one base packet x shard of variants; counters give presentations; distinct = case index; non-trivial = at least one packet was accepted once and presented again',
@@ -194,7 +194,7 @@ CHECKS = {
         'pkg': 'internal/server', 'test': 'TestVerif_C09', 'level': 'exploration',
         'technique': 'runtime differential monitor against a plain TCP relay: byte taps on the peer connection and on the connection the real Serve loop dials to the redirect target, hostile input scripts with segmentation and (virtual-time) pauses, target response scripts, not-wedged probe with a genuine client, crash attribution per child process',
         'level_text': 'Hostile connections are played against the real Serve loop in a bubble: all first-byte values, random bytes, TLS records whose declared length is below/at/above the 3000-byte buffer with bodies shorter/equal/longer than declared, browser-like hellos, genuine Cloak hellos that are bit-mutated, truncated, replayed, '
-                      'from an unauthorised UID or for an unknown proxy method, HTTP requests with no/bogus/over-long headers, LF-only line ends, byte-wise slow delivery and stalls beyond the 15 s first-packet timeout; the target answers immediately, after the request, in chunks, late (after 16 s), never, or closes early. '
+                      'from an unauthorised UID or for an unknown proxy method, HTTP requests with no/bogus/over-long headers or with further bytes in the same segment, structurally valid ClientHellos with malformed key_share/other extension bodies (placed in the browser\'s position, first and last), LF-only line ends, byte-wise slow delivery and stalls beyond the 15 s first-packet timeout; the target answers immediately, after the request, in chunks, late (after 16 s), never, or closes early. '
                       'Oracle: target bytes are a prefix of the peer\'s stream and all of it for complete/unrecognisable first packets, peer bytes are exactly the target\'s reply, the relay is not cut while both ends stay open, closing one end closes the other, and a genuine client is still served afterwards. A concurrent variant connects ~25 hostile peers at once and matches target streams by content.',
         'level_note': 'Assumes ' + A_RACE + ' and ' + A_HARNESS + '. Not demanded: relaying when the target cannot be dialled; refusal of over-cap users; full delivery of the reply when the peer closes first.',
         'rule': 'case = one hostile connection (input kind x segmentation x pauses x target response script); distinct = hash(kind, reply script, length, index); input_kinds counts distinct kind/response combinations; non-trivial = at least one byte was sent and both taps were compared at quiescence',
@@ -242,7 +242,7 @@ CHECKS = {
         'pkg': 'internal/server', 'test': 'TestVerif_C16', 'level': 'exploration',
         'technique': 'runtime conservation monitor: per-user record-payload volume measured on wire taps (independent TLS record splitter) compared with the credit read back from the real bbolt user database after the real periodic usage uploads, on a virtual clock; cut-off of exhausted/expired/deleted users observed at the client side and in the panel',
         'level_text': 'Whole system in a bubble: 1..4 database users plus a bypass user, 1..3 sessions each over 1..3 direct connections, echo traffic bursts of up to 150 kB interleaved with the real one-minute upload rounds, session closures (including the last one), credit changes, expiry moved into the past and deletions. '
-                      'At quiescent points after two upload intervals: nobody is charged more than the volume its own connections carried (never twice, never for another user), users that stayed active are charged exactly that volume in each direction, and users at or below zero credit, expired or deleted have lost every session within one round plus 10 virtual minutes.',
+                      'At quiescent points after two upload intervals: nobody is charged more than the volume its own connections carried (never twice, never for another user), users that stayed active are charged exactly that volume in each direction, and users at or below zero credit, expired or deleted have lost every session within one round plus 10 virtual minutes; what is stored for a user that was cut off lies between the volume metered when the cutting round started and the total metered; overlapping upload rounds are forced through a hook.',
         'level_note': 'Assumes ' + A_RACE + ' and ' + A_HARNESS + '. Direct transport only (the metered unit is exactly the TLS record payload there). Credit changes are applied only after pending usage has been uploaded, so the expected value is the last written value minus the volume since.',
         'rule': 'case = one history (users, sessions, traffic bursts, closures, admin changes, upload rounds); distinct = history index; non-trivial = at least one traffic burst was followed by an upload round and a credit comparison',
         'assumptions': [A_RACE, A_HARNESS],
